@@ -148,9 +148,9 @@ func c09Specs(tier string) []*h.CrashSpec {
 		}
 		return nil
 	}})
-	maxLen := 2
+	maxLen := 3
 	if tier == "thorough" {
-		maxLen = 3
+		maxLen = 4
 	}
 	var hists [][]int
 	var gen func(cur []int)
@@ -246,7 +246,7 @@ func c09Specs(tier string) []*h.CrashSpec {
 func init() {
 	h.RegisterCrash(&h.CrashCheck{
 		ID: "C09",
-		Rule: "for every history of length <= 2 (quick) / <= 3 (thorough) over 12 single-request operations (blob uploads, first push, tag move, second tag, artifact push, tag / digest / artifact delete, collection tick) from four start states, plus three longer scripts: every mutating filesystem call of the directory store (mkdir, create-temp, write, write-file, rename, remove) is a crash point and every write is torn after 0, n/2 and n-1 bytes; " +
+		Rule: "for every history of length <= 3 (quick) / <= 4 (thorough, within the time budget) over 12 single-request operations (blob uploads, first push, tag move, second tag, artifact push, tag / digest / artifact delete, collection tick) from four start states, plus three longer scripts: every mutating filesystem call of the directory store (mkdir, create-temp, write, write-file, rename, remove) is a crash point and every write is torn after 0, n/2 and n-1 bytes; " +
 			"after each crash the server is discarded without Close, a new one is opened on the directory, and the oracle checks that the repository loads, every blob file hashes to its name, every tag resolves to a complete image, and the readable state equals the model before or after the interrupted request; non-trivial = distinct recovered directory trees",
 		Assume: []string{"process-crash model: everything issued before the crash point is on disk, nothing after it (loss of un-synced pages is outside the property)", "left-over temporary files under _uploads/ and index.json.* are not violations", "collection policy: untagged and dangling referrers collected, no grace period, so that ticks remove content"},
 		Specs:  c09Specs,
